@@ -2491,7 +2491,7 @@ func runIndexFromSameSequence(rr *RuleRun) {
 
 func init() {
 	register(&Rule{
-		ID: "C04.dynamic-test-sees-through-marks", Prop: "C04", Also: []string{"C12", "C11", "C13"}, Floor: 0, Controls: 0,
+		ID: "C04.dynamic-test-sees-through-marks", Prop: "C04", Also: []string{"C12", "C11", "C13"}, Floor: 0, Controls: 1,
 		Doc: "in the standard functions a member taken out of a value that the function unmarked only at the top (Unmark, not UnmarkDeep) is not compared with cty.DynamicVal by Go identity: a marked DynamicVal is a different Go value, so the test is false for it and the member is treated as an ordinary known leaf — the marked call answers with a known result where the unmarked call answers unknown",
 		Run: runDynamicTestSeesThroughMarks,
 	})
@@ -3744,7 +3744,7 @@ func runPathKeyComparisonMarks(rr *RuleRun) {
 
 func init() {
 	register(&Rule{
-		ID: "C02.no-machine-arithmetic-on-narrowed-numbers", Prop: "C02", Also: []string{"C03", "C14", "C13"}, Floor: 0, Controls: 0,
+		ID: "C02.no-machine-arithmetic-on-narrowed-numbers", Prop: "C02", Also: []string{"C03", "C14", "C13"}, Floor: 0, Controls: 1,
 		Doc: "no number value is built (NumberIntVal / NumberUIntVal / NumberFloatVal) from Go machine arithmetic (+ - * / and unary minus) on integers that were narrowed out of big.Float operands: every such operator can overflow or wrap for operands that are individually exact (MinInt64 / -1, MaxInt64 + 1, 2^32 * 2^32), and the wrapped machine result is then presented as the exact arbitrary-precision answer — the big.Float operation it replaces cannot overflow",
 		Run: runNoMachineArithmeticOnNarrowed,
 	})
